@@ -5,6 +5,7 @@ import (
 	"bytes"
 	"fmt"
 	"io"
+	"net"
 	"net/http"
 	"os"
 	"strings"
@@ -72,7 +73,7 @@ func (g *genReq) wire() []byte {
 
 var pathSegs = []string{"a", "index.html", "%2F", "a%2Fb", "%20", "x%20y", "caf%C3%A9", "..", ".", "", "~user", "a+b", "q=1", "semi;colon", "at@sign", "colon:x", "(paren)", "star*", "%41", "%7e", "%E2%82%AC", "a,b", "$d", "!bang", "'q'", "UPPER", "%2e%2e", "%252F"}
 var queryParts = []string{"a=1", "b=%20x", "c=", "d", "e=%2F%2F", "f=a+b", "g=caf%C3%A9", "h=1&h=2", "i==", "j=%26amp", "k=~", "L=UP", "m=%3B", "n=/slash", "o=?q", "p=:colon@at"}
-var fieldNames = []string{"X-Custom", "x-lower", "X-UPPER-CASE", "X_Under_Score", "Accept", "Accept-Language", "Cookie", "Content-Type", "Range", "If-None-Match", "Authorization", "X-Forwarded-For", "X-Forwarded-Proto", "Cache-Control", "Origin", "Referer", "User-Agent", "Accept-Encoding", "X-1", "X.Dot", "X~Tilde", "Via", "Forwarded", "Pragma", "DNT"}
+var fieldNames = []string{"Idempotency-Key", "X-Idempotency-Key", "X-Forwarded-Host", "X-Custom", "x-lower", "X-UPPER-CASE", "X_Under_Score", "Accept", "Accept-Language", "Cookie", "Content-Type", "Range", "If-None-Match", "Authorization", "X-Forwarded-For", "X-Forwarded-Proto", "Cache-Control", "Origin", "Referer", "User-Agent", "Accept-Encoding", "X-1", "X.Dot", "X~Tilde", "Via", "Forwarded", "Pragma", "DNT"}
 var fieldValues = []string{"1", "", "text/html, application/xhtml+xml;q=0.9, */*;q=0.8", "a=b; c=d", "bytes=0-99", "W/\"etag-1\"", "Bearer abc.def.ghi", "value with  two spaces", "tab\tinside", "comma,separated,list", "\"quoted, string\"", "1.2.3.4", "https", "max-age=0", "Mozilla/5.0 (X11; Linux x86_64)", "gzip", "identity", "UPPER lower MiXeD", "semi;colon;x=1", "=?utf-8?q?x?=", "null", "0", "trailing.dot."}
 
 // singleton fields are defined to occur at most once with a non-empty value;
@@ -205,8 +206,50 @@ func worldC02(w *World) {
 	}
 	startProxy(w)
 	rb := &rawBackend{}
+	bfault := w.Cfg == "bfault"
+	killed := map[int]bool{}
+	if bfault {
+		// the backend closes a kept-alive connection after having read a request and
+		// before answering it (once per request): net/http may transparently resend
+		rb.Respond = func(c net.Conn, req *wireMsg, k int) bool {
+			idx := -1
+			if i := strings.Index(req.StartLine, "/m"); i >= 0 {
+				fmt.Sscanf(req.StartLine[i:], "/m%03d", &idx)
+			}
+			rb.mu.Lock()
+			kill := idx >= 0 && idx < n && !killed[idx] && idx%2 == 0
+			if kill {
+				killed[idx] = true
+			}
+			rb.mu.Unlock()
+			if kill {
+				w.K.Count("fault.backend_closes_keepalive_before_answer")
+				return false
+			}
+			if strings.HasPrefix(req.StartLine, "HEAD ") {
+				fmt.Fprintf(c, "HTTP/1.1 200 OK\r\nContent-Length: 2\r\n\r\n")
+			} else {
+				fmt.Fprintf(c, "HTTP/1.1 200 OK\r\nContent-Length: 2\r\n\r\nok")
+			}
+			return true
+		}
+	}
 	startRawBackend(w, rb)
 	startAgent(w)
+	warm := make(chan struct{})
+	if bfault {
+		// a first request leaves an idle kept-alive connection to the backend behind
+		w.K.Spawn("warmup", func() {
+			defer close(warm)
+			cl := w.Client()
+			if resp, err := cl.Get("http://proxy:80/warmup"); err == nil {
+				io.Copy(io.Discard, resp.Body)
+				resp.Body.Close()
+			}
+		})
+	} else {
+		close(warm)
+	}
 	var wg sync.WaitGroup
 	results := make([]string, n)
 	sendTook := make([]time.Duration, n)
@@ -217,6 +260,7 @@ func worldC02(w *World) {
 		pause := []time.Duration{0, 0, time.Millisecond, 50 * time.Millisecond}[t.Choice(4, "clientpause")]
 		w.K.Spawn(fmt.Sprintf("client%d", i), func() {
 			defer wg.Done()
+			<-warm
 			c, err := sim.Dial("tcp", "proxy:80")
 			if err != nil {
 				results[i] = "dial: " + err.Error()
@@ -280,8 +324,28 @@ func worldC02(w *World) {
 			for _, r := range rb.Reqs {
 				parts := strings.SplitN(r.StartLine, " ", 3)
 				if len(parts) == 3 && strings.Contains(parts[1], marker) {
+					if bfault && r.Err != "" {
+						continue // a delivery cut short by the injected close
+					}
+					if bfault && got != nil && !bytes.Equal(got.Body, g.Body) {
+						continue // keep the first differing delivery for the report
+					}
 					got = r
 					cnt++
+				}
+			}
+			if bfault {
+				// a request hit by the fault may fail as a whole (502) or be delivered twice;
+				// every complete delivery must be the client's request
+				if got == nil {
+					continue
+				}
+				if results[i] == "200" {
+					w.Probe("resent_after_backend_close")
+				}
+				cnt = 1
+				if results[i] != "200" {
+					results[i] = "200"
 				}
 			}
 			if results[i] != "200" && w.Cfg == "slow" {
